@@ -181,7 +181,10 @@ func blockZ(b *nom.AccountBlock) interface{} {
 func corrupt(rng *rand.Rand, e *delivered, src chain.Chain, cs consensus.Consensus, l chain.Chain, lo, hi uint64) {
 	d := e.d
 	m := d.Momentum
-	kinds := []string{"bad-signature", "wrong-producer", "wrong-changes-hash", "extra-account-block",
+	// every rule of the raw momentum verifier, each violated alone in a momentum that is otherwise honest and correctly
+	// hashed and signed by the pillar elected for its slot
+	kinds := []string{"data-not-empty-signed-by-elected-pillar", "version-other-signed-by-elected-pillar", "chain-identifier-other-signed-by-elected-pillar",
+		"bad-signature", "wrong-producer", "wrong-changes-hash", "extra-account-block",
 		"surplus-junk-contract-send", "surplus-junk-contract-send", "surplus-block-of-later-momentum",
 		"stamped-inside-slot-by-elected-pillar", "stamped-inside-slot-by-elected-pillar",
 		"stamped-at-later-slot-start-by-this-slots-pillar", "signed-by-pillar-of-nearby-slot"}
@@ -219,6 +222,19 @@ func corrupt(rng *rand.Rand, e *delivered, src chain.Chain, cs consensus.Consens
 	switch kind {
 	default:
 		kind = hostileCorrupt(rng, e, kind, src, l, lo, hi, pairs)
+	case "data-not-empty-signed-by-elected-pillar":
+		m.Data = make([]byte, 1+rng.Intn(40))
+		rng.Read(m.Data)
+		Resign(m)
+		e.okM = false
+	case "version-other-signed-by-elected-pillar":
+		m.Version = []uint64{0, 2, 1 << 32, ^uint64(0)}[rng.Intn(4)]
+		Resign(m)
+		e.okM = false
+	case "chain-identifier-other-signed-by-elected-pillar":
+		m.ChainIdentifier = []uint64{0, m.ChainIdentifier + 1, ^uint64(0)}[rng.Intn(3)]
+		Resign(m)
+		e.okM = false
 	case "bad-signature":
 		m.Signature[rng.Intn(len(m.Signature))] ^= byte(1 << uint(rng.Intn(8)))
 		e.okM = false
